@@ -89,7 +89,8 @@ def check_case(case):
                 require(len(l.vertices) == 2 and id(l.v1) in mem and id(l.v2) in mem, "link-leaves-universe", f"vertex {v.i}")
             if case["ens"]:
                 require(any(l.v1 is v for l in v.links), "ensurelink-violated", f"vertex {v.i} is v1 of no link (count={count}, conn={case['conn']})")
-        sig = lambda U: sorted((v.i, [(l.v1.i, l.v2.i) for l in v.links]) for v in U.vertices)
+        # order-sensitive: the universe's member order is part of "the result"
+        sig = lambda U: [(v.i, [(l.v1.i, l.v2.i) for l in v.links]) for v in U.vertices]
         u2 = run()
         require(sig(u) == sig(u2), "not-reproducible", "same seed, different graph")
     finally:
@@ -118,7 +119,7 @@ def signature(case):
         if case["conn"] is not None:
             kw["connectivity"] = case["conn"]
         u = randgraph.randgraph(**kw)
-        return sorted((v.i, [(l.v1.i, l.v2.i) for l in v.links]) for v in u.vertices)
+        return [(v.i, [(l.v1.i, l.v2.i) for l in v.links]) for v in u.vertices]
     finally:
         random.setstate(state)
 
